@@ -216,6 +216,12 @@ def handle (toks : List String) : String :=
           "ok " ++ ";".intercalate (sentences.map fun row => "/".intercalate (row.map showNats))
       | _, _ => "bad-op"
     | _, _, _, _, _, _, _, _ => "bad-op"
+  | ["bip85.path", lang, words, index, _xprv] =>
+    match words.toNat?, index.toNat? with
+    | some w, some i => match bip85Bip39Path lang w i with
+      | some p => "ok " ++ showNats p
+      | none => "err value"
+    | _, _ => "bad-op"
   | ["bip85.entropy", key, _xprv, _path] =>
     match fromHex? key with
     | some k => "ok " ++ toHex (bip85Entropy hmacSha512 k)
